@@ -214,3 +214,34 @@ PROPS["C02"] = dict(
     shards=lambda tier, seed: sharded("c02", _n(tier, 12, 16), _n(tier, 300, 1800)),
     min_evaluations={"quick": 60, "thorough": 400},
 )
+
+PROPS["C10"] = dict(
+    title="REQ and REP enforce strict alternation for every call history",
+    rule="(histories) one REQ (peers: 1..3 echo REP servers) or one REP (peers: 1..3 clients that keep requests coming) driven by 1..8 tasks on "
+         "clones of the socket, each issuing random send/recv/recv_multipart/send_multipart calls (4..16 ops), over tcp/inproc/ipc, on "
+         "current-thread and 4-worker runtimes, with seeded perturbation at the check-then-act points; every call is logged at the client "
+         "boundary (call tick, return tick, result) from one logical clock and the successful operations must admit a linearisation "
+         "(respecting real-time order) that alternates send,recv,.. (REQ) / recv,send,.. (REP) - exhaustive search, histories <= 24 ops. "
+         "(gate) one task is held between the state check and the state update until a second has passed the check. (routing) a lock-step REP "
+         "with 3 clients (REQ and DEALER) echoes requests; each client must receive exactly the echoes of its own requests. "
+         "distinct = (configuration, result vector) with >= 2 successful operations.",
+    assumptions=["a timed-out or failed call is treated as not having taken effect only if the linearisation of successful calls still exists without it"],
+    shards=lambda tier, seed: sharded("c10", _n(tier, 8, 16), _n(tier, 240, 900))
+    + [dict(bin="c10", args=["--only", "gate"], timeout=300, name="c10-gate")],
+    min_evaluations={"quick": 100, "thorough": 1000},
+)
+
+PROPS["C11"] = dict(
+    title="ROUTER addresses by true peer identity; envelopes round-trip unchanged",
+    rule="one ROUTER with 1..4 peers (DEALER / REQ / ROUTER) whose routing ids are absent, 1 byte, 255 bytes, distinct or colliding, over "
+         "tcp/inproc/ipc, AUTO_DELIMITER on both ends {1,0}, ROUTER_MANDATORY {1,0}, first message sent in the same instant as connect() or "
+         "after the handshake, ROUTER read with recv_multipart or frame by frame. Payload shapes are all 30 empty/non-empty patterns of 1..4 "
+         "frames; every payload names its true sender and intended recipient. Checked: identity prefix == announced id (never a placeholder, "
+         "never another peer's; stable for anonymous peers), payload frame lists equal in both directions, a message addressed to I reaches "
+         "only claimants of I, unknown id -> HostUnreachable (mandatory) / silent drop to nobody (non-mandatory), a new connection with the "
+         "same identity is routed to after the old one closed. distinct = scenario configuration.",
+    assumptions=["with colliding identities either claimant may receive (nothing stricter is stated)",
+                 "peers talk to the ROUTER in lock-step because DEALER egress ordering is a recorded C01 finding"],
+    shards=lambda tier, seed: sharded("c11", _n(tier, 8, 16), _n(tier, 300, 1200)),
+    min_evaluations={"quick": 100, "thorough": 600},
+)
